@@ -88,6 +88,7 @@ def run(ctx: Ctx):
         rules.rule_callers(ctx, "D3", name, ok, f"{name} may only be called by Station.{'/'.join(wrappers)}")
     # D4 enter call sites, D5 transition data flow and adoption
     rules.rule_enter_sites(ctx, KINDS, "D4")
+    ctx.attempt(rules.rule_activity_writes, ctx, "D4")
     res_holders = {sc.name for sc in states.state_classes(repo) if rules.released_kinds(sc, KINDS)}
     ctx.attempt(rules.rule_enter_installs, ctx, "D4", "TS.enter-installs", res_holders)
     # a dropped state matters here only if the call that produced it can take or give back a plug, a queue slot or a stall
@@ -403,7 +404,17 @@ def selftest():
     RBF = "nrel/hive/state/vehicle_state/reserve_base.py"
     CQF = "nrel/hive/state/vehicle_state/charge_queueing.py"
     EOF_ = "nrel/hive/state/entity_state/entity_state_ops.py"
-    return [
+    IDLE = "nrel/hive/state/vehicle_state/idle.py"
+    VEHF = "nrel/hive/model/vehicle/vehicle.py"
+    aw = [
+        V("activity-written-directly", IDLE, "            updated_state = replace(self, idle_duration=updated_idle_duration)\n            updated_vehicle = less_energy_vehicle.modify_vehicle_state(updated_state)",
+          "            from nrel.hive.state.vehicle_state.out_of_service import OutOfService\n            updated_state = OutOfService.build(self.vehicle_id) if mechatronics.is_empty(less_energy_vehicle) else replace(self, idle_duration=updated_idle_duration)\n            updated_vehicle = less_energy_vehicle.modify_vehicle_state(updated_state)", rule="TS.activity-write"),
+        V("activity-field-replaced", IDLE, "            updated_vehicle = less_energy_vehicle.modify_vehicle_state(updated_state)",
+          "            updated_vehicle = replace(less_energy_vehicle, vehicle_state=updated_state)", rule="WMC.writers"),
+        V("install-other-activity", "nrel/hive/state/vehicle_state/reserve_base.py", "VehicleState.apply_new_vehicle_state(updated_sim, self.vehicle_id, self)", "VehicleState.apply_new_vehicle_state(updated_sim, self.vehicle_id, Idle.build(self.vehicle_id))", rule="WMC.callers"),
+        V("twin-activity-update-twice", IDLE, "            updated_state = replace(self, idle_duration=updated_idle_duration)\n", "            updated_state = replace(replace(self, idle_duration=0), idle_duration=updated_idle_duration)\n", kind="twin"),
+    ]
+    return aw + [
         V("exit-no-return-charger", CSF, "error, updated_station = station.return_charger(self.charger_id)",
           "error, updated_station = None, station", rule="TS.pairing"),
         V("base-exit-commit-pre-release-station", CBF, "return simulation_state_ops.modify_station(sim2, updated_station)",
